@@ -60,12 +60,18 @@ def check(repo: Repo, rep: Report) -> None:
     rep.require(len(loops) == 1, "token loop in parse")
     loop = loops[0]
     in_loop = [s for s in sites(parse) if loop.node in s.ctx.loops]
-    ts = [s for s in in_loop if isinstance(s.node, ast.Assign) and u(s.node.targets[0]) == "timestamp"]
-    incs = [s for s in in_loop if isinstance(s.node, ast.AugAssign) and u(s.node.target) == "iframe"]
+    aug = [s for s in in_loop if isinstance(s.node, ast.AugAssign) and isinstance(s.node.target, ast.Name)]
+    frame_names = {u(s.node.target) for s in aug}
+    ts = [s for s in in_loop if isinstance(s.node, ast.Assign) and isinstance(s.node.targets[0], ast.Name)
+          and any(isinstance(x, ast.Name) and x.id in frame_names for x in ast.walk(s.node.value))]
+    rep.require(len(ts) == 1 and len(frame_names) == 1, "timestamp assignment / frame counter in the token loop")
+    FR = next(iter(frame_names))
+    TS = u(ts[0].node.targets[0])
+    incs = [s for s in aug if u(s.node.target) == FR]
     ok = len(ts) == 1 and not ts[0].ctx.branch[len(loop.ctx.branch) + 1:] and all(ts[0].index < i.index for i in incs)
     e = ts[0].node.value if ts else None
     form = isinstance(e, ast.BinOp) and isinstance(e.op, ast.Add) and {u(e.left), u(e.right)} >= {"time_shift"} and \
-        any(isinstance(x, ast.BinOp) and isinstance(x.op, ast.Mult) and {u(x.left), u(x.right)} == {"iframe", "timespan"} for x in (e.left, e.right))
+        any(isinstance(x, ast.BinOp) and isinstance(x.op, ast.Mult) and {u(x.left), u(x.right)} == {FR, "timespan"} for x in (e.left, e.right))
     rep.ob("M1-timestamp-first", parse, "timestamp = iframe * timespan + time_shift before any iframe +=", ok and bool(form),
            "a marble's time is not (index of the character that starts it) * timespan + shift: it is computed after the frame "
            "counter moved or with a different formula")
@@ -77,7 +83,7 @@ def check(repo: Repo, rep: Report) -> None:
     for tok in (g_group, g_ticks, g_elem):
         mine = [i for i in incs if has_guard(i.ctx, tok, True)]
         ok = len(mine) == 1 and isinstance(mine[0].node.op, ast.Add) and u(mine[0].node.value) == f"len({tok})"
-        rep.ob("M2-frame-accounting", parse, f"if {tok}: iframe += len({tok})", ok,
+        rep.ob("M2-frame-accounting", parse, f"token class {['group', 'ticks', 'element'][(g_group, g_ticks, g_elem).index(tok)]}: frame += len(token)", ok,
                f"a `{tok}` token does not advance the frame counter by the length of the text it consumed: later marbles get the wrong time")
     stray = [i for i in incs if not any(has_guard(i.ctx, t, True) for t in (g_group, g_ticks, g_elem))]
     rep.ob("M2-frame-accounting", parse, "no other frame increments", not stray, f"the frame counter is also changed by {[short(i.node) for i in stray]}")
@@ -85,14 +91,14 @@ def check(repo: Repo, rep: Report) -> None:
     maps = [s for s in in_loop if isinstance(s.node, ast.Call) and isinstance(s.node.func, ast.Name) and s.node.func.id == "map_element"]
     rep.require(len(maps) >= 2, "map_element calls in the loop")
     for s in maps:
-        rep.ob("M3-emission", parse, f"{short(s.node)} at the token's timestamp", u(s.node.args[0]) == "timestamp",
+        rep.ob("M3-emission", parse, f"map_element #{maps.index(s)} stamped with the token's timestamp", u(s.node.args[0]) == TS,
                "a notification is not stamped with the time of the token that starts it (group members must share the opening position)")
     elem_map = [s for s in maps if u(s.node.args[1]) == g_elem]
     chk_e = [s for s in in_loop if isinstance(s.node, ast.Call) and dotted(s.node.func) == "check_stopped" and u(s.node.args[0]) == g_elem]
     rep.ob("M3-emission", parse, "check_stopped(element) before it is appended", bool(elem_map) and bool(chk_e) and chk_e[0].index < elem_map[0].index
            and has_guard(chk_e[0].ctx, g_elem, True), "marbles after a terminal one are not rejected (raise_stopped) before being recorded")
     grp_chk = [s for s in in_loop if isinstance(s.node, ast.Call) and dotted(s.node.func) == "check_stopped" and u(s.node.args[0]) != g_elem]
-    grp_ext = [s for s in in_loop if isinstance(s.node, ast.Call) and dotted(s.node.func) == "messages.extend"]
+    grp_ext = [s for s in in_loop if isinstance(s.node, ast.Call) and isinstance(s.node.func, ast.Attribute) and s.node.func.attr == "extend"]
     ok = bool(grp_chk) and bool(grp_ext) and grp_chk[0].index < grp_ext[0].index and has_guard(grp_chk[0].ctx, g_group, True) \
         and any(isinstance(l, ast.For) for l in grp_chk[0].ctx.loops if l is not loop.node)
     rep.ob("M3-emission", parse, "check_stopped for every group member before the group is recorded", ok,
